@@ -337,8 +337,10 @@ class ReleaseMonitor:
             return
         self.checks += 1
         for p, final in self.final.items():
-            if p in self.keep or not final or not (final <= self.finished):
+            if p in self.keep or not (final <= self.finished):
                 continue
+            if not final and (self.routes[p] or p not in self.finished):
+                continue  # (a result nobody consumes is released as soon as its producer has finished)
             if any(not (self.after[g] & self.started) for g in self.routes[p]):
                 continue  # a routing consumer may not have run yet
             w = self.rt.weak.get(p)
@@ -487,7 +489,7 @@ def gen_c13(seed, tier):  # noqa: F811
                                                           exc="E1")]
     if mode == "concurrent":
         op["cfg"].update(max_errors=0, retry=None)
-        if registry:
+        if registry and rng0.random() < 0.5:
             op["cfg"]["dry_run"] = True
     return desc
 
@@ -775,6 +777,16 @@ def gen_c01(seed, tier):  # noqa: F811
         # dependencies routed through literals, incl. literals that depend on literals
         desc, rng = base_desc(seed, tier, p_dep=0.5, p_lit=0.4, p_lit_chain=0.3, p_parallel=0.3, p_late_dep=0.3,
                               p_nested=0.15, durs=(0.0, 0.0, 1.0, 2.0), out_modes=("struct", "struct", "node"))
+        desc["ops"][0]["cfg"]["max_errors"] = 0
+        return desc
+    if seed % 4 == 3 and seed % 3 == 0:
+        # "finished executing successfully": a failed dependency never releases its dependents, whatever max_errors
+        desc, rng = base_desc(seed, tier, faults=True, p_dep=0.4, p_lit=0.15, p_parallel=0.3, p_late_dep=0.25)
+        desc["ops"][0]["cfg"]["max_errors"] = rng.choice([1, 2, 5, None])
+        return desc
+    if seed % 4 == 2 and seed % 3 == 0:
+        # registry worlds: the order is checked on the physical plan (store writes, read-backs, barriers)
+        desc, rng = base_desc(seed, tier, registry=True, p_unpack=0.0, scopes="plain", p_dep=0.4, p_late_dep=0.25)
         desc["ops"][0]["cfg"]["max_errors"] = 0
         return desc
     return _gen_c01_plan(seed, tier)
